@@ -281,6 +281,58 @@ def run_e2e(report, n, rng):
                 return
 
 
+def run_small_and_many(report):
+    """exact translated copies of (a) a shape only a few tolerances across and (b) one shape in more than thirty glyphs:
+    stored once, in OT-SVG (one <path>, the rest <use>) and in COLRv1 (one outline glyph)"""
+    import re
+
+    from harness.c02 import svg_docs
+
+    def poly(pts, dx=0.0, dy=0.0):
+        return "M" + " L".join(f"{x + dx:g},{y + dy:g}" for x, y in pts) + " Z"
+
+    quad = [(2.0, 3.0), (6.4, 3.5), (5.9, 7.2), (2.6, 6.6)]          # 4.4 units across in a 24-unit viewBox
+    dot = [(3.0, 3.0), (3.8, 3.1), (3.7, 3.8), (3.1, 3.7)]           # 0.8 units across
+    face = [(10.0, 10.0), (90.0, 14.0), (96.0, 80.0), (40.0, 110.0), (6.0, 70.0)]
+    svg = lambda vb, ds, cols=("#cc0000", "#00aa00", "#0000cc", "#884400", "#444444"): (
+        f'<svg xmlns="http://www.w3.org/2000/svg" viewBox="0 0 {vb} {vb}">' + "".join(f'<path d="{d}" fill="{cols[k % len(cols)]}"/>' for k, d in enumerate(ds)) + "</svg>")
+    cases = [
+        ("quad 4.4 units, viewBox 24, tolerance 0.5", 0.5, [svg(24, [poly(quad, 4 * k, 3 * k) for k in range(5)])], 5),
+        ("quad 4.4 units, viewBox 24, tolerance 0.25", 0.25, [svg(24, [poly(quad, 4 * k, 3 * k) for k in range(5)])], 5),
+        ("dot 0.8 units, viewBox 24, default tolerance", 0.1, [svg(24, [poly(dot, 5 * k, 4 * k) for k in range(3)])], 3),
+        ("one shape in 34 glyphs", 0.1, [svg(128, [poly(face, (k % 5), (k % 7))], cols=("#%02x%02x40" % (40 + 5 * k, 200 - 4 * k),)) for k in range(34)], 34),
+    ]
+    for name, tol, texts, copies in cases:
+        srcs = [(build.filename_for((0x1F600 + k,)), t, (0x1F600 + k,)) for k, t in enumerate(texts)]
+        for fmt in ("picosvg", "glyf_colr_1"):
+            over = dict(color_format=fmt, upem=1200, ascender=950, descender=-250, width=1200, reuse_tolerance=tol, keep_glyph_names=True)
+            case = dict(kind="e2e", format=fmt, reuse_tolerance=tol, what=name, sources=texts[:3])
+            try:
+                font, cfg, picos, _ = build.build_inprocess(over, srcs)
+            except Exception as ex:
+                case["error"] = f"{type(ex).__name__}: {ex}"[:800]
+                report_failure(report, f"small_many_build_{fmt}", case)
+                return
+            report.count(("c19-small-many", name, fmt), True)
+            report.hist("e2e.stream", "exact translations: " + name.split(",")[0])
+            if fmt == "picosvg":
+                docs = svg_docs(font)
+                paths = sum(len(re.findall(r"<path\b", d_[0])) for d_ in docs)
+                uses = sum(len(re.findall(r"<use\b", d_[0])) for d_ in docs)
+                if paths != 1:
+                    case["problem"] = f"{copies} exact translated copies are stored as {paths} <path> elements and {uses} <use> elements in {len(docs)} document(s)"
+                    report_failure(report, f"small_many_{fmt}", case)
+                    return
+            else:
+                outlines = set()
+                for k in range(len(texts)):
+                    outlines |= set(donors_colr(font, e2e.glyph_for(font, (0x1F600 + k,))))
+                if len(outlines) != 1:
+                    case["problem"] = f"{copies} exact translated copies are drawn from {len(outlines)} outline glyphs: {sorted(map(str, outlines))[:6]}"
+                    report_failure(report, f"small_many_{fmt}", case)
+                    return
+
+
 def run_normalize(report, n, rng):
     """picosvg's normalize gives the same normal form for exactly representable isometric copies."""
     from picosvg.svg_reuse import normalize
@@ -316,6 +368,8 @@ def main(argv):
     rng = random.Random(report.seed)
     run_normalize(report, 150 if tier == "quick" else 3000, rng)
     run_e2e(report, 30 if tier == "quick" else 900, rng)
+    if not report.violations:
+        run_small_and_many(report)
     if not st["proof_ok"] and not report.violations:
         report.violation("proof", dict(kind="proof", theorem="Props/C19.v", detail=report.notes.get("proof_failure")), found_input=False)
     report.open_obligations = [
